@@ -8,6 +8,9 @@ import Pixman.Model.Format
 import Pixman.Model.Alloc
 import Pixman.Model.Fill
 import Pixman.Model.Glyph
+import Pixman.Model.Combine32
+import Pixman.Lemmas.Combine
+import Pixman.Props.C04Core
 import Pixman.Lemmas.CSemFacts
 /-!
   Bridges: regenerated C functions (`Pixman.Gen.CFuncs`, rewritten from /repo's working tree on every
@@ -201,7 +204,137 @@ theorem pad_repeat_get_scanline_bounds_eq (sw vx ux w : Int)
     repeat' split
     all_goals fin3
 
+/-- `bilinear_interpolation` (the `SIZEOF_LONG > 4`, 7-bit variant compiled on this host): every `uint32_t`
+pixel and every 7-bit weight pair; also discharges the model's claim that no `uint64_t` term wraps -/
+theorem bilinear_interpolation_eq (tl tr bl br dx dy : Nat) (h1 : tl < 4294967296) (h2 : tr < 4294967296) (h3 : bl < 4294967296)
+    (h4 : br < 4294967296) (hx : dx ≤ 127) (hy : dy ≤ 127) :
+    CFuncs.bilinear_interpolation tl tr bl br dx dy = Pixman.Model.Fetch.bilinearInterpolation tl tr bl br dx dy := by
+  unfold CFuncs.bilinear_interpolation Pixman.Model.Fetch.bilinearInterpolation
+  have hX : dx <<< 1 ≤ 254 := by rw [Nat.shiftLeft_eq]; omega
+  have hY : dy <<< 1 ≤ 254 := by rw [Nat.shiftLeft_eq]; omega
+  have sh : ∀ t, t < 4294967296 → (t <<< 16) % 18446744073709551616 = t <<< 16 := by
+    intro t ht; rw [Nat.shiftLeft_eq]; omega
+  simp only [sh tl h1, sh tr h2, sh bl h3, sh br h4]
+  generalize dx <<< 1 = X at *
+  generalize dy <<< 1 = Y at *
+  have w1 : X * Y ≤ 65536 := Nat.le_trans (Nat.mul_le_mul hX hY) (by decide)
+  have w2 : X * (256 - Y) ≤ 65536 := Nat.le_trans (Nat.mul_le_mul hX (Nat.sub_le _ _)) (by decide)
+  have w3 : (256 - X) * Y ≤ 65536 := Nat.le_trans (Nat.mul_le_mul (Nat.sub_le _ _) hY) (by decide)
+  have w4 : (256 - X) * (256 - Y) ≤ 65536 := Nat.le_trans (Nat.mul_le_mul (Nat.sub_le _ _) (Nat.sub_le _ _)) (by decide)
+  generalize X * Y = W1 at *
+  generalize X * (256 - Y) = W2 at *
+  generalize (256 - X) * Y = W3 at *
+  generalize (256 - X) * (256 - Y) = W4 at *
+  -- alpha / blue
+  have a1 : tl &&& 4278190335 ≤ 4278190335 := Nat.and_le_right
+  have a2 : tr &&& 4278190335 ≤ 4278190335 := Nat.and_le_right
+  have a3 : bl &&& 4278190335 ≤ 4278190335 := Nat.and_le_right
+  have a4 : br &&& 4278190335 ≤ 4278190335 := Nat.and_le_right
+  generalize tl &&& 4278190335 = A1 at *
+  generalize tr &&& 4278190335 = A2 at *
+  generalize bl &&& 4278190335 = A3 at *
+  generalize br &&& 4278190335 = A4 at *
+  have p1 : A1 * W4 ≤ 4278190335 * 65536 := Nat.mul_le_mul a1 w4
+  have p2 : A2 * W2 ≤ 4278190335 * 65536 := Nat.mul_le_mul a2 w2
+  have p3 : A3 * W3 ≤ 4278190335 * 65536 := Nat.mul_le_mul a3 w3
+  have p4 : A4 * W1 ≤ 4278190335 * 65536 := Nat.mul_le_mul a4 w1
+  generalize A1 * W4 = P1 at *
+  generalize A2 * W2 = P2 at *
+  generalize A3 * W3 = P3 at *
+  generalize A4 * W1 = P4 at *
+  have f1 : (((P1 % 18446744073709551616 + P2 % 18446744073709551616) % 18446744073709551616 + P3 % 18446744073709551616) % 18446744073709551616 + P4 % 18446744073709551616) % 18446744073709551616 = P1 + P2 + P3 + P4 := by omega
+  rw [f1]
+  generalize P1 + P2 + P3 + P4 = F1
+  -- red / green
+  have rg : ∀ t : Nat, (t <<< 16 &&& 1095216660480 ||| t &&& 65280) ≤ 1099511627775 := by
+    intro t
+    have : (t <<< 16 &&& 1095216660480 ||| t &&& 65280) < 2 ^ 40 :=
+      Nat.or_lt_two_pow (Nat.lt_of_le_of_lt Nat.and_le_right (by decide)) (Nat.lt_of_le_of_lt Nat.and_le_right (by decide))
+    omega
+  have b1 := rg tl
+  have b2 := rg tr
+  have b3 := rg bl
+  have b4 := rg br
+  generalize (tl <<< 16 &&& 1095216660480 ||| tl &&& 65280) = B1 at *
+  generalize (tr <<< 16 &&& 1095216660480 ||| tr &&& 65280) = B2 at *
+  generalize (bl <<< 16 &&& 1095216660480 ||| bl &&& 65280) = B3 at *
+  generalize (br <<< 16 &&& 1095216660480 ||| br &&& 65280) = B4 at *
+  have q1 : B1 * W4 ≤ 1099511627775 * 65536 := Nat.mul_le_mul b1 w4
+  have q2 : B2 * W2 ≤ 1099511627775 * 65536 := Nat.mul_le_mul b2 w2
+  have q3 : B3 * W3 ≤ 1099511627775 * 65536 := Nat.mul_le_mul b3 w3
+  have q4 : B4 * W1 ≤ 1099511627775 * 65536 := Nat.mul_le_mul b4 w1
+  generalize B1 * W4 = Q1 at *
+  generalize B2 * W2 = Q2 at *
+  generalize B3 * W3 = Q3 at *
+  generalize B4 * W1 = Q4 at *
+  have f2 : (((Q1 % 18446744073709551616 + Q2 % 18446744073709551616) % 18446744073709551616 + Q3 % 18446744073709551616) % 18446744073709551616 + Q4 % 18446744073709551616) % 18446744073709551616 = Q1 + Q2 + Q3 + Q4 := by omega
+  rw [f2]
+  generalize Q1 + Q2 + Q3 + Q4 = F2
+  have r : (F1 &&& 280375481794560 ||| (F2 >>> 16 &&& 1095216660480 ||| F2 &&& 4278190080)) < 2 ^ 48 :=
+    Nat.or_lt_two_pow (Nat.lt_of_le_of_lt Nat.and_le_right (by decide))
+      (Nat.or_lt_two_pow (Nat.lt_of_le_of_lt Nat.and_le_right (by decide)) (Nat.lt_of_le_of_lt Nat.and_le_right (by decide)))
+  generalize (F1 &&& 280375481794560 ||| (F2 >>> 16 &&& 1095216660480 ||| F2 &&& 4278190080)) = R at *
+  rw [Nat.shiftRight_eq_div_pow]
+  omega
+
 end inlines
+
+/-! ## pixman-inlines.h: `repeat ()`  (C04/C08) -/
+section repeat_
+open Pixman Pixman.Props.C04Core
+open Pixman.Sample (RepeatMode CLIP MOD)
+
+theorem subLoop_same (c s : Int) : CSem.subLoop c s = Sample.subLoop c s := by
+  fun_induction CSem.subLoop c s with
+  | case1 c h ih => rw [Sample.subLoop, dif_pos h, ih]
+  | case2 c h => rw [Sample.subLoop, dif_neg h]
+theorem addLoop_same (c s : Int) : CSem.addLoop c s = Sample.addLoop c s := by
+  fun_induction CSem.addLoop c s with
+  | case1 c h ih => rw [Sample.addLoop, dif_pos h, ih]
+  | case2 c h => rw [Sample.addLoop, dif_neg h]
+theorem subLoop_lower (c s : Int) (hs : 0 < s) : (0 ≤ c → 0 ≤ Sample.subLoop c s) ∧ (c < 0 → Sample.subLoop c s = c) := by
+  fun_induction Sample.subLoop c s with
+  | case1 c h ih => exact ⟨fun _ => ih.1 (by omega), fun hc => by omega⟩
+  | case2 c h => exact ⟨fun h => h, fun _ => rfl⟩
+
+/-- C value of `pixman_repeat_t` -/
+def repeatCode : RepeatMode → Int
+  | .none => 0 | .normal => 1 | .pad => 2 | .reflect => 3
+
+theorem repeat_eq (mode : RepeatMode) (c size : Int) (hc1 : -2147483648 ≤ c) (hc2 : c ≤ 2147483647)
+    (hs : 0 < size) (hs2 : size ≤ 1073741823) :
+    CFuncs.repeat_ (repeatCode mode) c size =
+      match Sample.repeat mode c size with
+      | none => (0, c)
+      | some c' => (1, c') := by
+  cases mode with
+  | none =>
+    simp only [CFuncs.repeat_, repeatCode, Sample.repeat, ↓reduceIte]
+    split <;> rfl
+  | normal =>
+    have h1 := subLoop_spec c size hs
+    have h2 := subLoop_lower c size hs
+    have h3 := addLoop_spec (Sample.subLoop c size) size hs h1.2.1
+    simp only [CFuncs.repeat_, repeatCode, Sample.repeat, subLoop_same, addLoop_same, ↓reduceIte, Int.reduceEq]
+    rw [s32_id (Sample.subLoop c size) (by omega) (by omega), s32_id _ (by omega) (by omega)]
+  | pad =>
+    simp only [CFuncs.repeat_, repeatCode, Sample.repeat, CLIP, ↓reduceIte, Int.reduceEq]
+    rw [s32_id _ (by repeat' split <;> omega) (by repeat' split <;> omega)]
+  | reflect =>
+    have hm := MOD_eq_emod c (size * 2) (by omega)
+    simp only [CFuncs.repeat_, repeatCode, Sample.repeat, ↓reduceIte, Int.reduceEq]
+    have e : (if c < 0 then size * 2 - (-c - 1).tmod (size * 2) - 1 else c.tmod (size * 2)) = MOD c (size * 2) := by
+      unfold MOD; rfl
+    rw [e, hm]
+    have b1 : 0 ≤ c % (size * 2) := Int.emod_nonneg _ (by omega)
+    have b2 : c % (size * 2) < size * 2 := Int.emod_lt_of_pos _ (by omega)
+    generalize c % (size * 2) = r at *
+    rw [s32_id r (by omega) (by omega)]
+    split
+    · rw [s32_id _ (by omega) (by omega)]
+    · rfl
+
+end repeat_
 
 /-! ## pixman-private.h, pixman-utils.c  (C10: unorm_to_unorm; C02: 565 reference; C15/C04: overflow checks) -/
 section utils
@@ -318,4 +451,239 @@ theorem glyph_hash_eq (f k : Nat) : CFuncs.glyph_hash f k = Pixman.Glyph.wangHas
   rw [e5]
 
 end misc
+/-! ## pixman-combine32.c  (C01): the per-pixel bodies of the combiners installed by
+`_pixman_setup_combiner_functions_32`
+
+The generator translates the body of `for (i = 0; i < width; ++i)` of each combiner as a function of
+`*(src + i)`, `*(mask + i)`, `*(dest + i)` returning the new `*(dest + i)`; the unified combiners come in
+two variants, `_m` (`mask != NULL`) and `_n` (`mask == NULL`).  The macros of `pixman-combine32.h` stay
+calls of `Pixman.Gen.Combine32Macros` (regenerated by tools/gen_combine32.py, bridged in Props/C01).
+All pixel values range over `uint32_t`. -/
+section combine32
+open Pixman.Combine32 Pixman.Arith Pixman.Lanes Pixman.Lemmas
+set_option linter.unusedVariables false
+
+open Pixman.Gen.Combine32Macros in
+theorem mac :
+    (∀ x, ALPHA_8 x = alpha8 x) ∧ (∀ x a, UN8x4_MUL_UN8 x a = un8x4MulUn8 x a) ∧
+    (∀ x a y, UN8x4_MUL_UN8_ADD_UN8x4 x a y = un8x4MulUn8AddUn8x4 x a y) ∧
+    (∀ x a y b, UN8x4_MUL_UN8_ADD_UN8x4_MUL_UN8 x a y b = un8x4MulUn8AddUn8x4MulUn8 x a y b) ∧
+    (∀ x a, UN8x4_MUL_UN8x4 x a = un8x4MulUn8x4 x a) ∧
+    (∀ x a y, UN8x4_MUL_UN8x4_ADD_UN8x4 x a y = un8x4MulUn8x4AddUn8x4 x a y) ∧
+    (∀ x a y b, UN8x4_MUL_UN8x4_ADD_UN8x4_MUL_UN8 x a y b = un8x4MulUn8x4AddUn8x4MulUn8 x a y b) ∧
+    (∀ x y, UN8x4_ADD_UN8x4 x y = un8x4AddUn8x4 x y) :=
+  ⟨fun _ => rfl, fun _ _ => rfl, fun _ _ _ => rfl, fun _ _ _ _ => rfl, fun _ _ => rfl, fun _ _ _ => rfl,
+   fun _ _ _ _ => rfl, fun _ _ => rfl⟩
+
+theorem not32_sub (x : Nat) (h : x < 4294967296) : not32 x = 4294967295 - x := by
+  unfold not32; rw [Nat.mod_eq_of_lt h]
+theorem alpha8_le (x : Nat) (h : x < 4294967296) : alpha8 x ≤ 255 := by
+  unfold alpha8; rw [Nat.shiftRight_eq_div_pow]; omega
+theorem shr24_le (x : Nat) (h : x < 4294967296) : x >>> 24 ≤ 255 := alpha8_le x h
+theorem shr24_mod (x : Nat) (h : x < 4294967296) : (x >>> 24) % 65536 = x >>> 24 := by
+  have := shr24_le x h; omega
+theorem sub_lt32 (x : Nat) : 4294967295 - x < 4294967296 := by omega
+
+theorem combine_mask_m_eq (s m : Nat) : CFuncs.combine_mask_m s m = combineMask s (some m) := rfl
+theorem combine_mask_n_eq (s : Nat) : CFuncs.combine_mask_n s = combineMask s none := rfl
+theorem combine_mask_ca_eq (s m : Nat) (hs : s < 4294967296) : CFuncs.combine_mask_ca s m = combineMaskCa s m := by
+  unfold CFuncs.combine_mask_ca combineMaskCa
+  dsimp only
+  rw [shr24_mod s hs]
+  rfl
+theorem combine_mask_value_ca_eq (s m : Nat) : CFuncs.combine_mask_value_ca s m = combineMaskValueCa s m := rfl
+theorem combine_mask_alpha_ca_eq (s m : Nat) : CFuncs.combine_mask_alpha_ca s m = combineMaskAlphaCa s m := rfl
+
+theorem lt_combineMask_some (s m : Nat) (hs : s < 4294967296) (hm : m < 4294967296) :
+    combineMask s (some m) < 4294967296 := lt_combineMask s (some m) hs (by intro m' h; cases h; exact hm)
+theorem lt_combineMask_none (s : Nat) (hs : s < 4294967296) :
+    combineMask s none < 4294967296 := lt_combineMask s none hs (by intro m' h; cases h)
+theorem lt_combineMaskCa_1 (s m : Nat) (hs : s < 4294967296) (hm : m < 4294967296) :
+    (combineMaskCa s m).1 < 4294967296 := (combineMaskCa_spec s m hs hm).2.2.1
+theorem lt_combineMaskCa_2 (s m : Nat) (hs : s < 4294967296) (hm : m < 4294967296) :
+    (combineMaskCa s m).2 < 4294967296 := (combineMaskCa_spec s m hs hm).2.2.2
+
+local macro "c32" : tactic => `(tactic| (
+  simp (maxDischargeDepth := 6) only [mac.1, mac.2.1, mac.2.2.1, mac.2.2.2.1, mac.2.2.2.2.1, mac.2.2.2.2.2.1,
+    mac.2.2.2.2.2.2.1, mac.2.2.2.2.2.2.2, combine_mask_m_eq, combine_mask_n_eq, combine_mask_ca_eq,
+    combine_mask_value_ca_eq, combine_mask_alpha_ca_eq, not32_sub, shr24_mod, sub_lt32, lt_mulUn8, lt_mulUn8x4,
+    lt_addUn8x4, lt_mulUn8Add, lt_mulUn8x4Add, alpha8_le, shr24_le, lt_combineMask_some, lt_combineMask_none, lt_combineMaskCa_1, lt_combineMaskCa_2, lt_combineMaskValueCa,
+    lt_combineMaskAlphaCa, *]))
+
+theorem combine_src_u_m_eq (s m d : Nat) (hs : s < 4294967296) (hm : m < 4294967296) (hd : d < 4294967296) :
+    CFuncs.combine_src_u_m s m d = combineSrcU s (some m) d := by
+  unfold CFuncs.combine_src_u_m combineSrcU
+  first | (c32 <;> rfl) | rfl
+
+theorem combine_over_u_m_eq (s m d : Nat) (hs : s < 4294967296) (hm : m < 4294967296) (hd : d < 4294967296) :
+    CFuncs.combine_over_u_m s m d = combineOverU s (some m) d := by
+  unfold CFuncs.combine_over_u_m combineOverU
+  first | (c32 <;> rfl) | rfl
+
+theorem combine_over_u_n_eq (s d : Nat) (hs : s < 4294967296) (hd : d < 4294967296) :
+    CFuncs.combine_over_u_n s d = combineOverU s none d := by
+  unfold CFuncs.combine_over_u_n combineOverU
+  first | (c32 <;> rfl) | rfl
+
+theorem combine_over_reverse_u_m_eq (s m d : Nat) (hs : s < 4294967296) (hm : m < 4294967296) (hd : d < 4294967296) :
+    CFuncs.combine_over_reverse_u_m s m d = combineOverReverseU s (some m) d := by
+  unfold CFuncs.combine_over_reverse_u_m combineOverReverseU
+  first | (c32 <;> rfl) | rfl
+
+theorem combine_over_reverse_u_n_eq (s d : Nat) (hs : s < 4294967296) (hd : d < 4294967296) :
+    CFuncs.combine_over_reverse_u_n s d = combineOverReverseU s none d := by
+  unfold CFuncs.combine_over_reverse_u_n combineOverReverseU
+  first | (c32 <;> rfl) | rfl
+
+theorem combine_in_u_m_eq (s m d : Nat) (hs : s < 4294967296) (hm : m < 4294967296) (hd : d < 4294967296) :
+    CFuncs.combine_in_u_m s m d = combineInU s (some m) d := by
+  unfold CFuncs.combine_in_u_m combineInU
+  first | (c32 <;> rfl) | rfl
+
+theorem combine_in_u_n_eq (s d : Nat) (hs : s < 4294967296) (hd : d < 4294967296) :
+    CFuncs.combine_in_u_n s d = combineInU s none d := by
+  unfold CFuncs.combine_in_u_n combineInU
+  first | (c32 <;> rfl) | rfl
+
+theorem combine_in_reverse_u_m_eq (s m d : Nat) (hs : s < 4294967296) (hm : m < 4294967296) (hd : d < 4294967296) :
+    CFuncs.combine_in_reverse_u_m s m d = combineInReverseU s (some m) d := by
+  unfold CFuncs.combine_in_reverse_u_m combineInReverseU
+  first | (c32 <;> rfl) | rfl
+
+theorem combine_in_reverse_u_n_eq (s d : Nat) (hs : s < 4294967296) (hd : d < 4294967296) :
+    CFuncs.combine_in_reverse_u_n s d = combineInReverseU s none d := by
+  unfold CFuncs.combine_in_reverse_u_n combineInReverseU
+  first | (c32 <;> rfl) | rfl
+
+theorem combine_out_u_m_eq (s m d : Nat) (hs : s < 4294967296) (hm : m < 4294967296) (hd : d < 4294967296) :
+    CFuncs.combine_out_u_m s m d = combineOutU s (some m) d := by
+  unfold CFuncs.combine_out_u_m combineOutU
+  first | (c32 <;> rfl) | rfl
+
+theorem combine_out_u_n_eq (s d : Nat) (hs : s < 4294967296) (hd : d < 4294967296) :
+    CFuncs.combine_out_u_n s d = combineOutU s none d := by
+  unfold CFuncs.combine_out_u_n combineOutU
+  first | (c32 <;> rfl) | rfl
+
+theorem combine_out_reverse_u_m_eq (s m d : Nat) (hs : s < 4294967296) (hm : m < 4294967296) (hd : d < 4294967296) :
+    CFuncs.combine_out_reverse_u_m s m d = combineOutReverseU s (some m) d := by
+  unfold CFuncs.combine_out_reverse_u_m combineOutReverseU
+  first | (c32 <;> rfl) | rfl
+
+theorem combine_out_reverse_u_n_eq (s d : Nat) (hs : s < 4294967296) (hd : d < 4294967296) :
+    CFuncs.combine_out_reverse_u_n s d = combineOutReverseU s none d := by
+  unfold CFuncs.combine_out_reverse_u_n combineOutReverseU
+  first | (c32 <;> rfl) | rfl
+
+theorem combine_atop_u_m_eq (s m d : Nat) (hs : s < 4294967296) (hm : m < 4294967296) (hd : d < 4294967296) :
+    CFuncs.combine_atop_u_m s m d = combineAtopU s (some m) d := by
+  unfold CFuncs.combine_atop_u_m combineAtopU
+  first | (c32 <;> rfl) | rfl
+
+theorem combine_atop_u_n_eq (s d : Nat) (hs : s < 4294967296) (hd : d < 4294967296) :
+    CFuncs.combine_atop_u_n s d = combineAtopU s none d := by
+  unfold CFuncs.combine_atop_u_n combineAtopU
+  first | (c32 <;> rfl) | rfl
+
+theorem combine_atop_reverse_u_m_eq (s m d : Nat) (hs : s < 4294967296) (hm : m < 4294967296) (hd : d < 4294967296) :
+    CFuncs.combine_atop_reverse_u_m s m d = combineAtopReverseU s (some m) d := by
+  unfold CFuncs.combine_atop_reverse_u_m combineAtopReverseU
+  first | (c32 <;> rfl) | rfl
+
+theorem combine_atop_reverse_u_n_eq (s d : Nat) (hs : s < 4294967296) (hd : d < 4294967296) :
+    CFuncs.combine_atop_reverse_u_n s d = combineAtopReverseU s none d := by
+  unfold CFuncs.combine_atop_reverse_u_n combineAtopReverseU
+  first | (c32 <;> rfl) | rfl
+
+theorem combine_xor_u_m_eq (s m d : Nat) (hs : s < 4294967296) (hm : m < 4294967296) (hd : d < 4294967296) :
+    CFuncs.combine_xor_u_m s m d = combineXorU s (some m) d := by
+  unfold CFuncs.combine_xor_u_m combineXorU
+  first | (c32 <;> rfl) | rfl
+
+theorem combine_xor_u_n_eq (s d : Nat) (hs : s < 4294967296) (hd : d < 4294967296) :
+    CFuncs.combine_xor_u_n s d = combineXorU s none d := by
+  unfold CFuncs.combine_xor_u_n combineXorU
+  first | (c32 <;> rfl) | rfl
+
+theorem combine_add_u_m_eq (s m d : Nat) (hs : s < 4294967296) (hm : m < 4294967296) (hd : d < 4294967296) :
+    CFuncs.combine_add_u_m s m d = combineAddU s (some m) d := by
+  unfold CFuncs.combine_add_u_m combineAddU
+  first | (c32 <;> rfl) | rfl
+
+theorem combine_add_u_n_eq (s d : Nat) (hs : s < 4294967296) (hd : d < 4294967296) :
+    CFuncs.combine_add_u_n s d = combineAddU s none d := by
+  unfold CFuncs.combine_add_u_n combineAddU
+  first | (c32 <;> rfl) | rfl
+
+theorem combine_multiply_u_m_eq (s m d : Nat) (hs : s < 4294967296) (hm : m < 4294967296) (hd : d < 4294967296) :
+    CFuncs.combine_multiply_u_m s m d = combineMultiplyU s (some m) d := by
+  unfold CFuncs.combine_multiply_u_m combineMultiplyU
+  first | (c32 <;> rfl) | rfl
+
+theorem combine_multiply_u_n_eq (s d : Nat) (hs : s < 4294967296) (hd : d < 4294967296) :
+    CFuncs.combine_multiply_u_n s d = combineMultiplyU s none d := by
+  unfold CFuncs.combine_multiply_u_n combineMultiplyU
+  first | (c32 <;> rfl) | rfl
+
+theorem combine_src_ca_eq (s m d : Nat) (hs : s < 4294967296) (hm : m < 4294967296) (hd : d < 4294967296) :
+    CFuncs.combine_src_ca s m d = combineSrcCa s m d := by
+  unfold CFuncs.combine_src_ca combineSrcCa
+  first | (c32 <;> rfl) | rfl
+
+theorem combine_over_ca_eq (s m d : Nat) (hs : s < 4294967296) (hm : m < 4294967296) (hd : d < 4294967296) :
+    CFuncs.combine_over_ca s m d = combineOverCa s m d := by
+  unfold CFuncs.combine_over_ca combineOverCa
+  first | (c32 <;> rfl) | rfl
+
+theorem combine_over_reverse_ca_eq (s m d : Nat) (hs : s < 4294967296) (hm : m < 4294967296) (hd : d < 4294967296) :
+    CFuncs.combine_over_reverse_ca s m d = combineOverReverseCa s m d := by
+  unfold CFuncs.combine_over_reverse_ca combineOverReverseCa
+  first | (c32 <;> rfl) | rfl
+
+theorem combine_in_ca_eq (s m d : Nat) (hs : s < 4294967296) (hm : m < 4294967296) (hd : d < 4294967296) :
+    CFuncs.combine_in_ca s m d = combineInCa s m d := by
+  unfold CFuncs.combine_in_ca combineInCa
+  first | (c32 <;> rfl) | rfl
+
+theorem combine_in_reverse_ca_eq (s m d : Nat) (hs : s < 4294967296) (hm : m < 4294967296) (hd : d < 4294967296) :
+    CFuncs.combine_in_reverse_ca s m d = combineInReverseCa s m d := by
+  unfold CFuncs.combine_in_reverse_ca combineInReverseCa
+  first | (c32 <;> rfl) | rfl
+
+theorem combine_out_ca_eq (s m d : Nat) (hs : s < 4294967296) (hm : m < 4294967296) (hd : d < 4294967296) :
+    CFuncs.combine_out_ca s m d = combineOutCa s m d := by
+  unfold CFuncs.combine_out_ca combineOutCa
+  first | (c32 <;> rfl) | rfl
+
+theorem combine_out_reverse_ca_eq (s m d : Nat) (hs : s < 4294967296) (hm : m < 4294967296) (hd : d < 4294967296) :
+    CFuncs.combine_out_reverse_ca s m d = combineOutReverseCa s m d := by
+  unfold CFuncs.combine_out_reverse_ca combineOutReverseCa
+  first | (c32 <;> rfl) | rfl
+
+theorem combine_atop_ca_eq (s m d : Nat) (hs : s < 4294967296) (hm : m < 4294967296) (hd : d < 4294967296) :
+    CFuncs.combine_atop_ca s m d = combineAtopCa s m d := by
+  unfold CFuncs.combine_atop_ca combineAtopCa
+  first | (c32 <;> rfl) | rfl
+
+theorem combine_atop_reverse_ca_eq (s m d : Nat) (hs : s < 4294967296) (hm : m < 4294967296) (hd : d < 4294967296) :
+    CFuncs.combine_atop_reverse_ca s m d = combineAtopReverseCa s m d := by
+  unfold CFuncs.combine_atop_reverse_ca combineAtopReverseCa
+  first | (c32 <;> rfl) | rfl
+
+theorem combine_xor_ca_eq (s m d : Nat) (hs : s < 4294967296) (hm : m < 4294967296) (hd : d < 4294967296) :
+    CFuncs.combine_xor_ca s m d = combineXorCa s m d := by
+  unfold CFuncs.combine_xor_ca combineXorCa
+  first | (c32 <;> rfl) | rfl
+
+theorem combine_add_ca_eq (s m d : Nat) (hs : s < 4294967296) (hm : m < 4294967296) (hd : d < 4294967296) :
+    CFuncs.combine_add_ca s m d = combineAddCa s m d := by
+  unfold CFuncs.combine_add_ca combineAddCa
+  first | (c32 <;> rfl) | rfl
+
+theorem combine_multiply_ca_eq (s m d : Nat) (hs : s < 4294967296) (hm : m < 4294967296) (hd : d < 4294967296) :
+    CFuncs.combine_multiply_ca s m d = combineMultiplyCa s m d := by
+  unfold CFuncs.combine_multiply_ca combineMultiplyCa
+  first | (c32 <;> rfl) | rfl
+
+end combine32
 end Pixman.Props.Bridges
